@@ -6,3 +6,6 @@ import Verif.Props.C01
 import Verif.Props.C02
 import Verif.Props.C03
 import Verif.Props.C03Edit
+import Verif.Model.Cluster
+import Verif.Props.C05
+import Verif.Props.C05Order
